@@ -139,7 +139,7 @@ func c08Scenario(c *choice.Ctx, rep *report.R, prop string) {
 	sc := v.tcpClient(v.newTCPServer(0, 1000000*time.Second), vClientV4, vLocalV4)
 	name := refdns.N("ttl", "example", "test")
 	q := refdns.Query(0x0808, name, 1, 1)
-	time.Sleep(300 * time.Millisecond) // do not start on a second boundary of the cache clock
+	hsleep(300 * time.Millisecond) // do not start on a second boundary of the cache clock
 	sc.SendMsg(q)
 	wait()
 	if len(u.Pending()) != 1 || u.Pending()[0].Msg == nil {
@@ -167,7 +167,7 @@ func c08Scenario(c *choice.Ctx, rep *report.R, prop string) {
 		fail("setup", "first response missing or wrong")
 		return
 	}
-	time.Sleep(at)
+	hsleep(at)
 	wait()
 	before := len(u.Queries())
 	sc.SendMsg(q)
@@ -281,7 +281,7 @@ func c08History(c *choice.Ctx, rep *report.R) {
 		}
 		return nil, len(u.Queries()) - before
 	}
-	time.Sleep(300 * time.Millisecond)
+	hsleep(300 * time.Millisecond)
 	r, n := ask()
 	if r != nil || n != 1 {
 		fail("setup", "first query")
@@ -299,7 +299,7 @@ func c08History(c *choice.Ctx, rep *report.R) {
 	wait()
 	if first != "positive" {
 		// failed exchanges are never cached: the next query goes upstream again
-		time.Sleep(400 * time.Millisecond)
+		hsleep(400 * time.Millisecond)
 		r, n = ask()
 		if r != nil || n != 1 {
 			fail("failed-exchange-cached", fmt.Sprintf("after a failed exchange the repeat query was answered without a new upstream exchange (new upstream queries: %d)", n))
@@ -311,7 +311,7 @@ func c08History(c *choice.Ctx, rep *report.R) {
 		rep.Eval(desc)
 		return
 	}
-	time.Sleep(80 * time.Second) // into the last quarter of the 100 s lifetime
+	hsleep(80 * time.Second) // into the last quarter of the 100 s lifetime
 	r, n = ask()
 	if r == nil || n != 1 {
 		fail("refresh-not-started", fmt.Sprintf("hit in the last quarter: response=%v new upstream queries=%d", r != nil, n))
@@ -339,7 +339,7 @@ func c08History(c *choice.Ctx, rep *report.R) {
 		rq.Reply(m.Encode(false))
 	}
 	wait()
-	time.Sleep(5 * time.Second) // 85 s after the first fetch: the positive entry is still alive
+	hsleep(5 * time.Second) // 85 s after the first fetch: the positive entry is still alive
 	r, n = ask()
 	if r == nil {
 		fail("live-entry-lost", fmt.Sprintf("after a %s refresh the still-live positive entry was not served (new upstream queries %d)", refresh, n))
